@@ -1119,7 +1119,13 @@ func (ctx Ctx) coqRecurFunc(fullFuncName string, e *ast.Ident) coq.Expr {
 	if ctx.pkgPath != obj.Pkg().Path() {
 		return coq.GallinaIdent(fullFuncName)
 	}
-	fun := obj.(*types.Func)
+	fun, ok := obj.(*types.Func)
+	if !ok {
+		// e.g. a call through a function-typed field promoted from an
+		// embedded struct, which is not a method of the receiver type
+		ctx.unsupported(e, "call of %s, which is not a function or method", e.Name)
+		return nil
+	}
 
 	if fun.Scope().Contains(e.Pos()) {
 		return coq.GallinaString(fullFuncName)
